@@ -3,6 +3,7 @@ package errs
 import (
 	"errors"
 	"fmt"
+	"os"
 	"strconv"
 	"strings"
 
@@ -71,6 +72,9 @@ type appSpec struct {
 	GrpMount      string `json:"grp_mount,omitempty"`
 	GrpMountGiven bool   `json:"grp_mount_given,omitempty"` // false: .Use(sub) without a prefix argument
 	GrpMw         bool   `json:"grp_mw,omitempty"`          // the group carries a pass-through middleware
+	// The mount prefix is written without its leading slash ("api", "v1/x"): in the prefix
+	// argument of Use, or in the group prefix when that carries the first segment.
+	NoSlash bool `json:"no_slash,omitempty"`
 }
 
 // extraMount mounts the app instance App a second time: into Parent under Rel. Early: right
@@ -88,6 +92,8 @@ type place struct {
 	App   int
 	Full  string
 	Level int
+	// some mount on the way from the root to this place was written without leading slash
+	NoSlash bool
 }
 
 type treeSpec struct {
@@ -123,6 +129,23 @@ type plan struct {
 	// PreWhere&2 the raising handler sets it just before it returns the error.
 	PreStatus int `json:"pre_status,omitempty"`
 	PreWhere  int `json:"pre_where,omitempty"`
+	// The endpoint that serves the request first calls c.SendFile: 1 a missing file with a
+	// short absolute name, 2 a missing file with a relative name, 3 an existing file. Then, if
+	// it is the scripted raise position, it returns the scripted error; else it returns what
+	// SendFile returned (the 404 of a missing file is then the chain's error; after a sent
+	// file a middleware can still raise after Next returned).
+	SendFile int `json:"send_file,omitempty"`
+}
+
+var sendFileNames = [...]string{"", "/nofile/a.pdf", "./public/missing-errs-engine.txt", ""}
+
+func init() {
+	for _, f := range []string{"/etc/hostname", "/etc/os-release", "/etc/passwd"} {
+		if st, err := os.Stat(f); err == nil && st.Mode().IsRegular() && st.Size() < 1<<16 {
+			sendFileNames[3] = f
+			return
+		}
+	}
 }
 
 type reqSpec struct {
@@ -169,19 +192,20 @@ func (ts *treeSpec) places() [][]place {
 	}
 	n := len(ts.Apps)
 	type edge struct {
-		parent int
-		rel    string
+		parent  int
+		rel     string
+		noSlash bool
 	}
 	in := make([][]edge, n)
 	for i := 1; i < n; i++ {
-		in[i] = append(in[i], edge{ts.Apps[i].Parent, ts.Apps[i].Rel})
+		in[i] = append(in[i], edge{ts.Apps[i].Parent, ts.Apps[i].Rel, ts.Apps[i].NoSlash})
 	}
 	for _, x := range ts.Extra {
-		in[x.App] = append(in[x.App], edge{x.Parent, x.Rel})
+		in[x.App] = append(in[x.App], edge{x.Parent, x.Rel, false})
 	}
 	pl := make([][]place, n)
 	done := make([]bool, n)
-	pl[0], done[0] = []place{{0, "", 0}}, true
+	pl[0], done[0] = []place{{App: 0}}, true
 	var rec func(i, guard int) []place
 	rec = func(i, guard int) []place {
 		if done[i] || guard > n {
@@ -191,7 +215,7 @@ func (ts *treeSpec) places() [][]place {
 		var out []place
 		for _, ed := range in[i] {
 			for _, pp := range rec(ed.parent, guard+1) {
-				out = append(out, place{i, joinPrefix(pp.Full, ed.rel), pp.Level + 1})
+				out = append(out, place{i, joinPrefix(pp.Full, ed.rel), pp.Level + 1, pp.NoSlash || ed.noSlash})
 			}
 		}
 		pl[i] = out
@@ -215,7 +239,7 @@ func (ts *treeSpec) records(i int) bool {
 // expectedPlace returns the app whose error handler the property selects (0 = root) and the
 // mount place that makes it the innermost.
 func (ts *treeSpec) expectedPlace(path string, fold bool) (int, place) {
-	best, bp := 0, place{0, "", 0}
+	best, bp := 0, place{}
 	bd, bl := -1, -1
 	if fold {
 		path = strings.ToLower(path)
@@ -294,7 +318,9 @@ type slot struct {
 	epN    int
 	ep     int
 	mwMask uint32
-	preSet int // how often a scripted status was put on the response
+	preSet int  // how often a scripted status was put on the response
+	sent   int  // c.SendFile calls made by the serving endpoint
+	sfErr  bool // the chain's error is the one SendFile returned
 
 	_ [64]byte // keep slots of different goroutines on different cache lines
 }
@@ -311,6 +337,8 @@ func (s *slot) reset(p plan) {
 	s.ep = -1
 	s.mwMask = 0
 	s.preSet = 0
+	s.sent = 0
+	s.sfErr = false
 }
 
 func (s *slot) raise(c fiber.Ctx) error {
@@ -401,6 +429,19 @@ func (r *recorder) endpoint(i int) fiber.Handler {
 		s := r.slot(c)
 		s.epN++
 		s.ep = i
+		if k := s.plan.SendFile; k != 0 && sendFileNames[k] != "" {
+			s.sent++
+			err := c.SendFile(sendFileNames[k])
+			if s.plan.App == i && s.plan.Pos == posEp && s.raised == 0 {
+				return s.raise(c)
+			}
+			if err != nil && s.raised == 0 {
+				s.raised++
+				s.raisedErr = err
+				s.sfErr = true
+			}
+			return err
+		}
 		if s.plan.App == i && s.plan.Pos == posEp && s.raised == 0 {
 			return s.raise(c)
 		}
@@ -458,6 +499,7 @@ func build(ts *treeSpec, rec *recorder) *fiber.App {
 	routes := func(i int) {
 		apps[i].Get("/e", rec.endpoint(i))
 		apps[i].Post("/p", rec.endpoint(i))
+		apps[i].Get("/f/*", rec.endpoint(i))
 		if ts.Apps[i].RootEp {
 			apps[i].Get("/", rec.endpoint(i))
 		}
@@ -483,6 +525,13 @@ func build(ts *treeSpec, rec *recorder) *fiber.App {
 					gp, mp = a.Rel[:k+1], a.Rel[k+1:]
 				}
 			}
+			if a.NoSlash {
+				if len(gp) > 1 {
+					gp = gp[1:]
+				} else if len(mp) > 1 {
+					mp = mp[1:]
+				}
+			}
 			var g fiber.Router
 			if mw {
 				g = apps[p].Group(gp, func(c fiber.Ctx) error { return c.Next() })
@@ -494,6 +543,10 @@ func build(ts *treeSpec, rec *recorder) *fiber.App {
 			} else {
 				g.Use(apps[c])
 			}
+			return
+		}
+		if a.NoSlash && len(a.Rel) > 1 {
+			apps[p].Use(a.Rel[1:], apps[c])
 			return
 		}
 		apps[p].Use(a.Rel, apps[c])
@@ -631,7 +684,20 @@ func genTree(r *gen.Rand) *treeSpec {
 	addExtraMounts(ts)
 	markExplicitDefault(ts)
 	pickGroupForms(ts)
+	pickNoSlash(ts)
 	return ts
+}
+
+// pickNoSlash spells a tenth of the mount prefixes without their leading slash (own
+// generator, post-pass).
+func pickNoSlash(ts *treeSpec) {
+	cr := gen.New(gen.Hash64("no-slash", ts.describe()))
+	for i := 1; i < len(ts.Apps); i++ {
+		if ts.Apps[i].Rel != "/" && cr.Chance(1, 10) {
+			ts.Apps[i].NoSlash = true
+		}
+	}
+	ts.pl = nil
 }
 
 // pickGroupForms lets more mounts be performed from groups, in every spelling of group prefix
@@ -977,6 +1043,16 @@ func genReq(r *gen.Rand, ts *treeSpec) reqSpec {
 		if r.Chance(1, 8) {
 			rq.Plan.App = gen.Pick(r, chain)
 		}
+	}
+	// a sixth of the requests go to the wildcard endpoint /f/* that calls SendFile first; the
+	// path is longer or shorter than the file names (own generator)
+	fr := gen.New(gen.Hash64("send-file", rq.Method, rq.URI, strconv.Itoa(rq.Plan.App), strconv.Itoa(rq.Plan.Pos), strconv.Itoa(rq.Plan.Code)))
+	if fr.Chance(1, 6) {
+		rq.Method = "GET"
+		rq.Path = p + "/f/" + fr.StringFrom(gen.Lower+gen.Digits+"-_.", fr.PickW(3, 3, 2)*20+fr.Range(1, 20))
+		rq.URI = rq.Path
+		rq.Form = "send-file"
+		rq.Plan.SendFile = 1 + fr.Intn(3)
 	}
 	// a status left on the response by something earlier in the chain (own generator, so
 	// the draws above are unchanged)
